@@ -496,6 +496,37 @@ pub fn run(ctx: &Ctx) -> CheckResult {
             meta: json!({}),
         });
     }
+    // (b'') explicit fields of the script beat what an ANM image source carries: compile an ANM with one
+    // set of header fields, then compile a script that states other values with that ANM as image source,
+    // and read the result back field for field (checks/fields.rs)
+    for i in 0..(if quick { 12 } else { 200 }) {
+        let mut rng = Rng::new(rng::mix(ctx.seed, "c17-explicit", i));
+        let game = *rng.pick(&["th12", "th16", "th10"]);
+        let (w, h) = (rng.range(1, 16) as u32, rng.range(1, 16) as u32);
+        let fmt = *rng.pick(&[1u32, 3, 5, 7]);
+        let src_spec = gen_spec(fmt, 0, 0, 1);
+        let (mp, lrs, rw, rh) = (rng.range(1, 300), rng.chance(1, 2), *rng.pick(&[32u32, 64, 256]), *rng.pick(&[32u32, 64, 128]));
+        let mut want = src_spec.replace("memory_priority: 0,", &format!("memory_priority: {},", mp)).replace("colorkey: 0,\n", "");
+        if game != "th10" {
+            want = want.replace("low_res_scale: false,", &format!("low_res_scale: {},", lrs));
+        } else {
+            want = want.replace("    low_res_scale: false,\n", "");
+        }
+        want = want.replace("    has_data: true,\n", &format!("    has_data: true,\n    rt_width: {},\n    rt_height: {},\n", rw, rh));
+        let src_spec = if game == "th10" { src_spec.replace("    low_res_scale: false,\n", "") } else { src_spec };
+        cases.push(Case {
+            property: "C17".into(),
+            oracle: "fieldwise".into(),
+            name: format!("explicit-fields#{} {} fmt={} {}x{} memory_priority={} low_res_scale={} rt={}x{}", i, game, fmt, w, h, mp, lrs, rw, rh),
+            inputs: vec![Input::tree("map/"), Input::text("src.spec", &src_spec), Input::text(crate::scen::SRC, &want), Input::text("fields.map", "!anmmap\n"), Input::bytes(&format!("gen/{}", PATH), encode_png(w, h, &gen_pixels(w, h, &mut rng)))],
+            steps: vec![
+                Step::new(vec![s("truanm"), s("compile"), s("-g"), s(game), s("src.spec"), s("-i"), s("gen"), s("-o"), s("orig.anm")]),
+                Step::new(vec![s("truanm"), s("compile"), s("-g"), s(game), s(crate::scen::SRC), s("-i"), s("orig.anm"), s("-o"), s(crate::scen::OUT)]),
+                Step::new(vec![s("truanm"), s("decompile"), s("-g"), s(game), s(crate::scen::OUT), s("-o"), s(crate::scen::DEC), s("--no-blocks"), s("--no-intrinsics")]),
+            ],
+            meta: json!({"compile_step": 1}),
+        });
+    }
     // (c) source orderings
     cases.extend(multisource_cases(ctx.seed, if quick { 150 } else { 2500 }));
     let (_r, mut stats, mut findings, mut herr) = par_map(ctx, &cases, |w, _, c| w.judge(c));
